@@ -408,8 +408,11 @@ func NewFork(nodable Nodable, index int, id ForkId) *Fork {
 // The constraints on the fork part of the metadata journal file name are
 // a bit more than those on the fork ID - they can't use a slash to
 // separate nested fork components, and they can't contain a '.' character
-// as that would break the journal filename parsing scheme.
-var encodeJournalName = strings.NewReplacer(".", "%2E", "/", "%2F")
+// as that would break the journal filename parsing scheme.  The '%' of the
+// escapes already present in a map key is itself escaped, so that the "%2F"
+// standing for a separator cannot be confused with an escaped slash in a key
+// and distinct fork IDs always get distinct names.
+var encodeJournalName = strings.NewReplacer("%", "%25", ".", "%2E", "/", "%2F")
 
 func (self *Fork) updateId(id ForkId) {
 	self.forkId = id
